@@ -173,7 +173,17 @@ def self_attr(name: str) -> Term:
 def _list_contribs(t):
     """contributions of a freshly built list term, in order (None if t is not one)"""
     if t[:1] == ("list",):
-        return tuple(("one", (), x) for x in t[1])
+        out = []
+        for x in t[1]:
+            if x[:2] == ("uop", "*"):       # [a, *xs]: the elements of xs, in place
+                inner = _list_contribs(x[2])
+                if inner is not None:
+                    out.extend(inner)
+                else:
+                    out.append(("many", (), x[2]))
+            else:
+                out.append(("one", (), x))
+        return tuple(out)
     if t[:1] == ("acc",) and t[1] == "list":
         return tuple(t[2])
     return None
@@ -470,6 +480,14 @@ class Sym:
                     if k == "**" and v_[:1] == ("dict",) and v_[1] and all(
                             kk[:1] == ("const",) and kk[1][:1] in ("'", '"') and kk[1][1:-1].isidentifier() for kk, _vv in v_[1]):
                         spread.extend((kk[1][1:-1], vv) for kk, vv in v_[1])
+                    elif k == "**" and v_[:1] == ("acc",) and v_[1] == "dict" and v_[2] and all(
+                            c[0] == "kv" and not c[1] and c[2][:1] == ("const",) and c[2][1][:1] in ("'", '"') and c[2][1][1:-1].isidentifier()
+                            for c in v_[2]):
+                        # a dict built here entry by entry with literal keys (later entries of the same key win)
+                        merged = {}
+                        for c in v_[2]:
+                            merged[c[2][1][1:-1]] = c[3]
+                        spread.extend(merged.items())
                     else:
                         spread.append((k, v_))
                 kws = tuple(spread)
@@ -479,6 +497,10 @@ class Sym:
                     and pos[1][1][:1] in ("'", '"') and "getattr" not in self.locals:
                 at_ = ("attr", pos[0], pos[1][1][1:-1])
                 return at_ if len(pos) == 2 else mk_alt([at_, pos[2]], self.max_alts, "getattr")
+            # getattr(x, n) with n one of a few literal names (an element of a table of attribute names) is one of x.n
+            if f == ("glob", "getattr") and len(pos) == 2 and not kws and pos[1][:1] == ("alt",) and "getattr" not in self.locals \
+                    and all(a[:1] == ("const",) and a[1][:1] in ("'", '"') and a[1][1:-1].isidentifier() for a in pos[1][1]):
+                return mk_alt([("attr", pos[0], a[1][1:-1]) for a in pos[1][1]], self.max_alts, "getattr")
             nts = _namedtuples_of(getattr(self.cx, "module", None))
             if nts:
                 # nt._replace(f=v) is the record with that field changed; **nt._asdict() are its fields as keywords
